@@ -38,5 +38,12 @@ def eval : P String := do
     SourceLoc.arrival Float.sqrt sC (src e) (rcv s) (T e) v)))
   pure (fmtHexFloat mis ++ " " ++ fmtVec ⟨g⟩ ++ " " ++ String.intercalate " " (fw.map fmtVec))
 
+/-- `orient <ne> <ns> <rows> <cols>` → how a rows × cols array of picks is read -/
+def orient : P String := do
+  let ne ← pNat; let ns ← pNat; let rows ← pNat; let cols ← pNat
+  pEnd
+  pure (match SourceLoc.orientation ne ns rows cols with
+    | .asGiven => "as-given" | .transposed => "transposed" | .refused => "refused")
+
 end C17
 end HmcVerif
